@@ -488,6 +488,10 @@ def index_case(draw, tier="quick"):
                 j += 1
             elems = elems[:i] + ["..."] + elems[j + 1 :]
     unwrap = len(elems) == 1 and draw(st.booleans())
+    if draw(st.integers(0, 11)) == 0:
+        # a boolean scalar as the whole index (what `points[~points.isinf]` is for a single object): python bool or numpy bool
+        elems = [{"B": draw(st.booleans()), "np": draw(st.booleans())}]
+        unwrap = True
     return {"spec": spec, "index": elems, "unwrap": unwrap}
 
 
@@ -507,7 +511,7 @@ def to_index(elems, unwrap):
         elif "b" in e:
             out.append(np.array(e["b"], dtype=bool))
         elif "B" in e:
-            out.append(bool(e["B"]))
+            out.append(np.bool_(e["B"]) if e.get("np") else bool(e["B"]))
     if unwrap:
         return out[0]
     return tuple(out)
@@ -773,9 +777,9 @@ LAWS = [
         mandatory=("has-infinite", "at-infinity-up-to-rounding:add", "at-infinity-up-to-rounding:mul", "at-infinity-up-to-rounding:neg")),
     Law("arith_objects", lambda tier: obj_case(tier), run_obj, lambda c: True, lambda c: [c["kind"], c["op"], c["other"]],
         {"quick": 1500, "thorough": 20000}, "Line/Plane/Quadric/Circle/Segment/Polygon +- point = translation; +- array/scalar elementwise", shard=4000),
-    Law("getitem", lambda tier: index_case(tier), run_index, idx_nontrivial, lambda c: [index_class(c["index"])],
+    Law("getitem", lambda tier: index_case(tier), run_index, idx_nontrivial, lambda c: [index_class(c["index"])] + (["boolean-scalar-alone"] if len(c["index"]) == 1 and isinstance(c["index"][0], dict) and "B" in c["index"][0] and c["unwrap"] else []),
         {"quick": 12000, "thorough": 400000}, "t[index] vs array[index] and the structural index-type model", shard=8000,
-        mandatory=("basic", "one-array", "several-arrays")),
+        mandatory=("basic", "one-array", "several-arrays", "boolean-scalar-alone")),
     Law("structure", lambda tier: struct_case(tier), run_struct, lambda c: True, lambda c: [c["what"]],
         {"quick": 2000, "thorough": 30000}, "transpose (full/default/cycle), tensor_product, expand_dims, copy", shard=4000),
 ]
